@@ -638,7 +638,7 @@ def handlers : List (String × Handler) :=
       match a with
       | kn :: _ :: ln :: _ => if kn.startsWith "p." ∧ (i = "panic" ∨ i = "spin") then { v with more := [("C08", s!"{kn} decoder on {ln} bytes: {i}")] } else v
       | _ => v),
-   ("fn", fn), ("prog", prog), ("api", api), ("apix", apix), ("parse", parseH), ("sw", swH), ("pk", pkH), ("embed", embedH),
+   ("fn", fn), ("prog", prog), ("api", api), ("apix", apix), ("parse", parseH), ("sw", swH), ("pk", pkH), ("embed", embedH), ("embedw", embedH),
    ("rep", rep), ("rtrip", rtWith false), ("rtparse", rtWith true), ("rtw", rtw), ("scribble", scribble),
    -- literal values: the repeated-call oracle ("same answer every time") applies to any value whatsoever; the
    -- size-vs-bytes part belongs to C06 and is judged on API-built values only
